@@ -132,10 +132,11 @@ def gen_label_index(rng, labs, allow_absent=True):
     if r < 0.36 and allow_absent:
         return {"k": "s", "v": absent_label(rng, labs)}
     if r < 0.56:
-        m = rng.randint(0, min(n, 3))
+        m = rng.randint(0, min(n, 3)) if n <= 6 or rng.random() < 0.6 else rng.randint(4, n)   # long lists on long axes
         return {"k": "l", "v": [rng.choice(labs) for _ in range(m)]}
     if r < 0.62:
-        return {"k": "a", "v": [rng.choice(labs) for _ in range(rng.randint(1, 3))]}
+        m = rng.randint(1, 3) if n <= 6 or rng.random() < 0.6 else rng.randint(4, n)
+        return {"k": "a", "v": [rng.choice(labs) for _ in range(m)]}
     if r < 0.74:
         return {"k": "m", "v": [rng.random() < 0.5 for _ in range(n)]}
     if r < 0.90:
@@ -152,7 +153,8 @@ def gen_pos_index(rng, n):
     if r < 0.3:
         return {"k": "s", "v": rng.randint(-n, n - 1)}
     if r < 0.5:
-        return {"k": "l", "v": [rng.randint(-n, n - 1) for _ in range(rng.randint(0, 3))]}
+        m = rng.randint(0, 3) if n <= 6 or rng.random() < 0.6 else rng.randint(4, n)
+        return {"k": "l", "v": [rng.randint(-n, n - 1) for _ in range(m)]}
     if r < 0.62:
         return {"k": "m", "v": [rng.random() < 0.5 for _ in range(n)]}
     if r < 0.88:
